@@ -422,6 +422,38 @@ def callMappedS (staged : Staging α) (truthy : α → Bool) (b : String) (c : C
 def unstaged (staged : Staging α) (c : CallShape α) : Prop :=
   ∀ reg a, (Val.arg a ∈ c.pos ∨ ∃ k, (k, Val.arg a) ∈ c.kw) → staged reg a = none
 
+/-! ### Registry contents
+
+Each registry is its own `TypeRegistry()` with its own dict (`registryFreshPerInstance`, extracted):
+its contents are a function of the registrations made *in that registry*.  `lookup` returns the value
+of the first registered type the object is an instance of. -/
+
+/-- registry name ↦ (type, override) pairs in registration order. -/
+abbrev RegState := String → List (Nat × Nat)
+
+def register (st : RegState) (reg : String) (t o : Nat) : RegState :=
+  fun r => if r = reg then st r ++ [(t, o)] else st r
+
+def stagingOf (isInst : α → Nat → Bool) (st : RegState) : Staging α :=
+  fun reg a => ((st reg).find? (fun e => isInst a e.1)).map (·.2)
+
+/-- The registry an overload consults (none for float_, int_, range_, min_, max_). -/
+def dispatchReg (ov : Overload) : Option String :=
+  match ov.dispatch with
+  | .single r _ _ => some r
+  | .firstOf r _ => some r
+  | .allSame r _ => some r
+  | _ => none
+
+/-- Table check: construction is per instance, registry names are distinct, every overload consults a
+declared registry, and no two overloads consult the same one. -/
+def registryTableOk : Bool :=
+  registryFreshPerInstance && decide registries.Nodup &&
+  overloads.all (fun ov => match dispatchReg ov with
+    | none => true
+    | some r => registries.contains r &&
+        overloads.all (fun ov' => dispatchReg ov' != some r || ov'.name == ov.name))
+
 /-! ### Provenance: what the library does with the argument values -/
 
 def valuesOf (c : CallShape α) : List (Val α) := c.pos ++ c.kw.map (·.2)
